@@ -104,17 +104,36 @@ def c3(name, classes, memo):
 # effect analysis
 # --------------------------------------------------------------------------
 
+class _Mirror(set):
+    """the transitive read set; every *direct* `add` is mirrored into `dreads`"""
+    def __init__(self, mirror):
+        super().__init__()
+        self.mirror = mirror
+
+    def add(self, x):
+        set.add(self, x)
+        self.mirror.add(x)
+
+
 class Effects:
     def __init__(self):
-        self.reads, self.writes, self.bumps, self.resets = set(), set(), set(), set()
+        self.dreads = set()       # fields read by the body itself / uncached helpers (round 3)
+        self.reads = _Mirror(self.dreads)     # ... plus, transitively, those of cached callees
+        self.writes, self.bumps, self.resets = set(), set(), set()
         self.calls = set()
+        self.ccalls = set()       # (cached callee, argument pattern) edges (round 3)
 
-    def merge(self, o):
-        self.reads |= o.reads
+    def merge(self, o, through_cache=False):
+        """through_cache: `o` are the effects of a cached method called through its cache: its
+        reads count for the flat read set only; the nested table records the call edge"""
+        set.update(self.reads, o.reads)
         self.writes |= o.writes
         self.bumps |= o.bumps
         self.resets |= o.resets
         self.calls |= o.calls
+        if not through_cache:
+            self.dreads |= o.dreads
+            self.ccalls |= o.ccalls
 
 
 UNKNOWN = object()
@@ -126,6 +145,7 @@ class Analyzer:
         self.mro_memo = {}
         self.memo = {}
         self.stack = set()
+        self.patterns = {}     # (class, cached method) -> {constant call shape: (pattern, env)}
 
     def mro(self, cname):
         return c3(cname, self.classes, self.mro_memo)
@@ -218,6 +238,52 @@ class Analyzer:
             else:
                 new[k.arg] = v
         return new
+
+    def call_pattern(self, cname, callee, fdef, call, env, skip_self):
+        """argument pattern of a call of a cached method: 0 = no arguments at all (the lru key
+        is the bare object), 1 = general body (`*args` / `**kwargs` at the call site),
+        k >= 2 = a call *shape*: which parameters are passed, and the value of those that are
+        constants under the caller's environment (`self.outdegree(key)` with key=None known;
+        `self.nsi_degree(typical_weight=typical_weight)`: key keeps its default).  A shape gets
+        its own specialised body, in which the unknown arguments are universally quantified."""
+        args = list(call.args)[1:] if skip_self else list(call.args)
+        if not args and not call.keywords:
+            return 0
+        shape = []
+        for a in args:
+            if isinstance(a, ast.Starred):
+                return 1
+            v = self.const(a, env)
+            shape.append(("pos", "?" if v is UNKNOWN else repr(v)))
+        for k in call.keywords:
+            if k.arg is None:
+                return 1
+            v = self.const(k.value, env)
+            shape.append((k.arg, "?" if v is UNKNOWN else repr(v)))
+        reg = self.patterns.setdefault((cname, callee), {})
+        key = tuple(shape)
+        if key not in reg:
+            reg[key] = (len(reg) + 2, self.call_env(fdef, call, env, skip_self))
+        return reg[key][0]
+
+    def default_env(self, fdef):
+        """constant environment of a call without arguments; None if some parameter has no
+        default (then there is no such call)"""
+        params = fdef.args.args[1:]
+        defaults = fdef.args.defaults
+        if len(defaults) < len(params) or fdef.args.vararg or \
+                any(d is None for d in fdef.args.kw_defaults):
+            return None
+        envd = {}
+        for p, d in zip(params[len(params) - len(defaults):], defaults):
+            v = self.const(d, {})
+            if v is not UNKNOWN:
+                envd[p.arg] = v
+        for p, d in zip(fdef.args.kwonlyargs, fdef.args.kw_defaults):
+            v = self.const(d, {})
+            if v is not UNKNOWN:
+                envd[p.arg] = v
+        return envd
 
     def effects(self, cname, owner, fdef, env, top=False):
         """effects of running function `fdef` (defined in class `owner`) on an object of
@@ -435,8 +501,10 @@ class Analyzer:
             if fdef is not None:
                 if x in owner.cached:
                     eff.calls.add(x)
+                    eff.ccalls.add((x, self.call_pattern(cname, x, fdef, node, env, False)))
                 eff.merge(self.effects(cname, owner.name, fdef,
-                                       self.call_env(fdef, node, env, skip_self=False)))
+                                       self.call_env(fdef, node, env, skip_self=False)),
+                          through_cache=x in owner.cached)
             else:
                 self.read_attr(cname, x, eff)
             return
@@ -447,10 +515,18 @@ class Analyzer:
             base = f.value.id
             owner, fdef = self.resolve(cname, f.attr, "funcs", start=base)
             if fdef is not None:
+                # the cache of `Base.m` is the cache of this class's `m` only if the MRO selects
+                # the same definition; otherwise the call is treated as inlined (sound: the flat
+                # read set is the same)
+                sel, _ = self.resolve(cname, f.attr, "funcs")
+                thru = f.attr in owner.cached and sel is not None and sel.name == owner.name
                 if f.attr in owner.cached:
                     eff.calls.add(f.attr)
+                if thru:
+                    eff.ccalls.add((f.attr, self.call_pattern(cname, f.attr, fdef, node, env, True)))
                 eff.merge(self.effects(cname, owner.name, fdef,
-                                       self.call_env(fdef, node, env, skip_self=True)))
+                                       self.call_env(fdef, node, env, skip_self=True)),
+                          through_cache=thru)
                 return
         # getattr(Base, f"{x}_suffix")(self, ...): dynamic dispatch over the methods of Base whose
         # name matches the constant parts of the f-string; all of them may be called
@@ -472,10 +548,15 @@ class Analyzer:
                     if nm in seen or not _re.fullmatch(pat, nm):
                         continue
                     seen.add(nm)
+                    sel, _ = self.resolve(cname, nm, "funcs")
+                    thru = nm in ci.cached and sel is not None and sel.name == ci.name
                     if nm in ci.cached:
                         eff.calls.add(nm)
+                    if thru:
+                        eff.ccalls.add((nm, self.call_pattern(cname, nm, fdef, node, env, True)))
                     eff.merge(self.effects(cname, ci.name, fdef,
-                                           self.call_env(fdef, node, env, skip_self=True)))
+                                           self.call_env(fdef, node, env, skip_self=True)),
+                              through_cache=thru)
             return
         # super().m(...)
         if isinstance(f, ast.Attribute) and isinstance(f.value, ast.Call) \
@@ -579,7 +660,38 @@ def build_tables():
                 comps = list(key) + list(attrs)
                 methods[mname] = {"key": comps, "reads": sorted(eff.reads),
                                   "writes": sorted(eff.writes), "bumps": sorted(eff.bumps),
-                                  "owner": c}
+                                  "owner": c,
+                                  # round 3: the method as written (nested view)
+                                  "dreads": sorted(eff.dreads),
+                                  "ccalls": sorted(eff.ccalls)}
+                env0 = an.default_env(fdef)
+                general = {"reads": sorted(eff.reads), "dreads": sorted(eff.dreads),
+                           "ccalls": sorted(eff.ccalls), "shape": "general"}
+                body0 = general
+                if env0 is not None:
+                    eff0 = an.effects(cname, c, fdef, env0)
+                    body0 = {"reads": sorted(eff0.reads), "dreads": sorted(eff0.dreads),
+                             "ccalls": sorted(eff0.ccalls), "shape": "()"}
+                # bodies[k] = body of argument pattern k (0: no arguments, 1: general, >= 2 below)
+                methods[mname]["bodies"] = [body0, general]
+                methods[mname]["_def"] = (c, fdef)
+        # specialised bodies of constant call shapes met at call sites (may register new ones)
+        progress = True
+        while progress:
+            progress = False
+            for mname, m in methods.items():
+                reg = an.patterns.get((cname, mname), {})
+                for shape, (pat, envp) in sorted(reg.items(), key=lambda kv: kv[1][0]):
+                    if pat < len(m["bodies"]):
+                        continue
+                    assert pat == len(m["bodies"])
+                    c, fdef = m["_def"]
+                    effp = an.effects(cname, c, fdef, envp)
+                    m["bodies"].append({"reads": sorted(effp.reads), "dreads": sorted(effp.dreads),
+                                        "ccalls": sorted(effp.ccalls), "shape": repr(shape)})
+                    progress = True
+        for m in methods.values():
+            m.pop("_def", None)
         mutators = {}
         names = set()
         for c in mro:
@@ -615,8 +727,44 @@ def build_tables():
                         "writes": [comp + ".content"],
                         "bumps": [comp + "." + c for c in spec.get("bumps", {}).get(mut, [])],
                         "resets": [], "owner": spec.get("class", "?")}
-        out[cname] = {"mro": mro, "key": key, "methods": methods, "mutators": mutators}
+        out[cname] = {"mro": mro, "key": key, "methods": methods, "mutators": mutators,
+                      "order": topo_order(methods), "maxsize": lru_maxsize(classes)}
     return out
+
+
+def topo_order(methods):
+    """callees before callers (ties by name); members of a cycle are placed in name order —
+    the Lean predicate `NTable.acyclic` then fails and names the class"""
+    order, state = [], {}
+
+    def visit(m):
+        if state.get(m) is not None:
+            return
+        state[m] = 1
+        cs = {c for b in methods[m]["bodies"] for c, _ in b["ccalls"]}
+        for c in sorted(cs):
+            if c in methods and c != m:
+                visit(c)
+        state[m] = 2
+        order.append(m)
+    for m in sorted(methods):
+        visit(m)
+    return order
+
+
+def lru_maxsize(classes):
+    """`Cached.lru_params["maxsize"]` of core/cache.py"""
+    ci = classes.get("Cached")
+    if ci is None:
+        return 32
+    for n in ci.node.body:
+        if isinstance(n, ast.Assign) and any(isinstance(t, ast.Name) and t.id == "lru_params"
+                                             for t in n.targets):
+            try:
+                return ast.literal_eval(n.value).get("maxsize", 128)
+            except Exception:  # noqa
+                return 32
+    return 32
 
 
 def to_lean(tables):
@@ -631,7 +779,7 @@ def to_lean(tables):
         return "[" + ", ".join(str(x) for x in xs) + "]"
 
     lines = ["/- GENERATED by translate/gen_C01.py from the current /repo working tree — do not edit. -/",
-             "import Pyunicorn.Model.Memo", "namespace Pyunicorn.Generated.StructC01",
+             "import Pyunicorn.Model.MemoNested", "namespace Pyunicorn.Generated.StructC01",
              "open Pyunicorn.Memo", ""]
     tabs = []
     for cname, t in tables.items():
@@ -639,8 +787,10 @@ def to_lean(tables):
             lines.append(f"-- {cname}: {t['error']}")
             continue
         lines.append(f"/-- `{cname}`: MRO {' > '.join(t['mro'][:6])}; `__cache_state__` = {t['key']} -/")
-        mlines, idx = [], 0
-        for mname, m in sorted(t["methods"].items()):
+        mlines, nlines, idx = [], [], 0
+        pos = {n: i for i, n in enumerate(t["order"])}
+        for mname in t["order"]:
+            m = t["methods"][mname]
             comps = []
             for comp in m["key"]:
                 comps.append(comp)
@@ -654,6 +804,14 @@ def to_lean(tables):
             reads = {r for r in reads if not r.startswith("_mut_")}
             mlines.append(f"    /- {idx} {mname} key={comps} -/ ⟨{lst(sorted(fid(r) for r in reads))}, "
                           f"{lst([fid('ctr:' + c) for c in ctrs])}, {lst([fid(f) for f in flds])}⟩")
+
+            def body(b):
+                dr = sorted(fid(r) for r in b["dreads"] if not r.startswith("_mut_"))
+                cs = ", ".join(f"({pos[c]}, {a})" for c, a in b["ccalls"] if c in pos)
+                return f"⟨{lst(dr)}, [{cs}]⟩"
+            bodies = [body(b) for b in m["bodies"]]
+            nlines.append(f"    /- {idx} {mname} -/ ⟨[{', '.join(bodies)}], {body(m)}, "
+                          f"{lst([fid('ctr:' + c) for c in ctrs])}, {lst([fid(f) for f in flds])}⟩")
             idx += 1
         olines, idx = [], 0
         for oname, o in sorted(t["mutators"].items()):
@@ -663,6 +821,11 @@ def to_lean(tables):
             idx += 1
         lines.append(f"def tbl_{cname} : Table := ⟨[\n" + ",\n".join(mlines) + "],\n  [\n"
                      + ",\n".join(olines) + "]⟩\n")
+        ms = t.get("maxsize")
+        lines.append(f"/-- `{cname}` as written: per method the specialised body of the call without "
+                     f"arguments, the general body, the key -/\n"
+                     f"def ntbl_{cname} : NTable := ⟨[\n" + ",\n".join(nlines) + "],\n  [\n"
+                     + ",\n".join(olines) + "],\n  " + ("none" if ms is None else f"some {ms}") + "⟩\n")
         tabs.append(cname)
     glines = []
     for g in CFG["groups"]:
@@ -670,6 +833,8 @@ def to_lean(tables):
     lines.append("def groups : List Group := [\n" + ",\n".join(glines) + "]\n")
     lines.append("def allTables : List (String × Table) := [\n" +
                  ",\n".join(f'  ("{c}", tbl_{c})' for c in tabs) + "]\n")
+    lines.append("def allNTables : List (String × NTable) := [\n" +
+                 ",\n".join(f'  ("{c}", ntbl_{c})' for c in tabs) + "]\n")
     lines.append("def fieldNames : List String := [" +
                  ", ".join('"' + n + '"' for n, _ in sorted(names.items(), key=lambda kv: kv[1])) + "]\n")
     lines.append("end Pyunicorn.Generated.StructC01")
